@@ -317,6 +317,14 @@ def dct_init_facts(mod, init):
                 ok = good_val and idx == want_idx
                 detail = "value %s index %s" % (v.show() if isinstance(v, Rat) else v, idx)
         facts["%s == pi*k/%s varying along axis %d" % (nm.split(".")[1], n.split(".")[1], axis)] = (ok, detail)
+    # grid scalars used by the evaluators: origin, extent, spacing of each axis from that axis' own array
+    for nm, want in (("self.dR", "self.Rarray[1]-self.Rarray[0]"), ("self.dZ", "self.Zarray[1]-self.Zarray[0]"), ("self.Rmin", "self.Rarray[0]"), ("self.Zmin", "self.Zarray[0]"),
+                     ("self.Rsize", "self.Rarray[-1]-self.Rarray[0]"), ("self.Zsize", "self.Zarray[-1]-self.Zarray[0]")):
+        got = [mod.code(s.value) for s in src.get(nm, []) if isinstance(s, ast.Assign)]
+        facts["%s == %s" % (nm[5:], want.replace("self.", ""))] = (got == [want], "found %s" % got)
+    for nm, arr in (("self.nR", "Rarray"), ("self.nZ", "Zarray")):
+        got = [mod.code(s.value) for s in src.get(nm, []) if isinstance(s, ast.Assign)]
+        facts["%s is the length of %s" % (nm[5:], arr)] = (bool(got) and all(g in ("len(%s)" % arr, "len(self.%s)" % arr, "self.%s.shape[0]" % arr, "%s.shape[0]" % arr, "self.%s.size" % arr, "%s.size" % arr) for g in got), "found %s" % got)
     # psiRZ transposed once so that rows are Z
     tr = [s for s in src.get("psiRZ", []) if isinstance(s, ast.Assign) and " ".join(mod.text(s.value).split()) == "psiRZ.T"]
     facts["input transposed exactly once (rows=Z, columns=R)"] = (len(tr) == 1, "%d transposes" % len(tr))
@@ -339,8 +347,44 @@ class ArangeEx(DctEx):
 
 
 # ---------------------------------------------------------------------------------
+def mla_rules(prog, rep, R="R3"):
+    """the container itself: every location property reads, allocates and writes its own backing
+    array, with the shape of that location (the assumption under the location-set analysis)"""
+    mod = prog.module(MLA)
+    shapes = {"centre": "[self.nx,self.ny]", "xlow": "[self.nx+1,self.ny]", "ylow": "[self.nx,self.ny+1]", "corners": "[self.nx+1,self.ny+1]",
+              "lower_right_corners": "[self.nx+1,self.ny+1]", "upper_right_corners": "[self.nx+1,self.ny+1]", "upper_left_corners": "[self.nx+1,self.ny+1]"}
+    cls = mod.classes.get("MultiLocationArray")
+    if cls is None:
+        raise AnalysisError("MultiLocationArray not found")
+    n = 0
+    for fn in cls.body:
+        if not isinstance(fn, ast.FunctionDef) or fn.name not in shapes:
+            continue
+        n += 1
+        loc = fn.name
+        role = "setter" if len(fn.args.args) == 2 else "getter"
+        backing = sorted({x.attr for x in ast.walk(fn) if isinstance(x, ast.Attribute) and isinstance(x.value, ast.Name) and x.value.id == "self" and x.attr.startswith("_") and x.attr.endswith("_array")})
+        allocs = [mod.code(c.args[0]) for c in ast.walk(fn) if isinstance(c, ast.Call) and _dotted(c.func) in ("numpy.zeros", "np.zeros") and c.args]
+        ok = backing == ["_%s_array" % loc] and allocs == [shapes[loc]]
+        if role == "getter":
+            rets = [r for r in ast.walk(fn) if isinstance(r, ast.Return)]
+            ok = ok and len(rets) == 1 and mod.code(rets[0].value) == "self._%s_array" % loc
+        else:
+            stores = [s for s in ast.walk(fn) if isinstance(s, ast.Assign) and isinstance(s.targets[0], ast.Subscript)]
+            ok = ok and len(stores) == 1 and mod.code(stores[0].targets[0]) == "self._%s_array[...]" % loc and mod.code(stores[0].value) == fn.args.args[1].arg
+        rep.ob(R, "MultiLocationArray.%s %s uses only its own backing array, allocated with shape %s" % (loc, role, shapes[loc]), ok, "%s:%d" % (MLA, fn.lineno),
+               "backing %s alloc %s" % (backing, allocs), key="mla/%s/%s" % (loc, role))
+    rep.floor(R + ".mla-properties", n, 14)
+    cp = mod.funcs.get("MultiLocationArray.copy")
+    copied = sorted({t.attr for s in ast.walk(cp.node) if isinstance(s, ast.Assign) for t in s.targets if isinstance(t, ast.Attribute) and isinstance(t.value, ast.Name) and t.attr in shapes}) if cp else []
+    ok = copied == ["centre", "corners", "xlow", "ylow"] and all(mod.code(s.value) == "self.%s.copy()" % s.targets[0].attr for s in ast.walk(cp.node)
+                                                             if isinstance(s, ast.Assign) and isinstance(s.targets[0], ast.Attribute) and s.targets[0].attr in shapes)
+    rep.ob(R, "MultiLocationArray.copy copies each of the four locations from the same location", ok, cp.site() if cp else MLA, str(copied), key="mla/copy")
+
+
 def r3(prog, rep):
     rep.rule("R3", "location fan-out: each per-location block mentions exactly one location; all four present")
+    mla_rules(prog, rep, "R3")
     targets = []
     eqm = prog.module(EQ)
     f = eqm.funcs.get("Equilibrium.handleMultiLocationArray.handler")
